@@ -12,7 +12,7 @@ CHECKS = {
         text='Universally quantified Coq theorems (round-trip of to_ast/eval, == iff attribute tuple, equal => equal hash, '
              'unequal => compare unequal, call_options and uses specifications) over a model whose tables are regenerated from '
              'malt/core/converter.py on every run and re-proved; plus an exhaustive correspondence of the model (evaluated in Coq) '
-             'with the implementation over all 8 x (1+7+128+24) constructor calls and all pairs for ==/hash. Complete for this property.',
+             'with the implementation over all 8 x (1+7+128+24) constructor calls and all pairs for ==/hash; the conversion-cache sub-key (api.PyToPy.get_caching_key, translated on every run) is proved to cover every attribute == compares, so reused code embeds the requested options (cache_key_complete, reused_code_embeds_requested_options), with an oracle converting one function under sequences of option values. Complete for this property.',
         note=NOTE_BASE + 'Modelled, not verified: Python hash() (an arbitrary function of the tuple), frozenset equality, '
              'the binding of ag__ names (exercised exhaustively by the oracle with the real extra locals).',
         technique='Coq proof over tables generated from source + exhaustive model/implementation correspondence',
